@@ -114,50 +114,50 @@ var (
 	reMod                = regexp.MustCompile(`([^(]+)\(*([^)]*)\)*`)
 
 	// Regexp to parse context instruction.
-	reCtxAs  = regexp.MustCompile(`(?:context|ctx) (\w+),*\s*(\w*)\s*=\s*([\w\s.,:|()"'\[\]]+) as ([\[\]\*\w]*)` + "")
-	reCtxDot = regexp.MustCompile(`(?:context|ctx) (\w+),*\s*(\w*)\s*=\s*([\w\s.,:|()"'\[\]]+)\.\(([\[\]\*\w]*)\)` + "")
-	reCtx    = regexp.MustCompile(`(?:context|ctx) (\w+),*\s*(\w*)\s*=\s*([\w\s.,:|()"'\[\]]+)`)
-	reCtxS0  = regexp.MustCompile(`(?:context|ctx) (\w+),*\s*(\w*)\s*=\s*"+([^"]+)"+`)
-	reCtxS1  = regexp.MustCompile(`(?:context|ctx) (\w+),*\s*(\w*)\s*=\s*'+([^']+)+'`)
+	reCtxAs  = regexp.MustCompile(`^(?:context|ctx) (\w+),*\s*(\w*)\s*=\s*([\w\s.,:|()"'\[\]]+) as ([\[\]\*\w]*)` + "")
+	reCtxDot = regexp.MustCompile(`^(?:context|ctx) (\w+),*\s*(\w*)\s*=\s*([\w\s.,:|()"'\[\]]+)\.\(([\[\]\*\w]*)\)` + "")
+	reCtx    = regexp.MustCompile(`^(?:context|ctx) (\w+),*\s*(\w*)\s*=\s*([\w\s.,:|()"'\[\]]+)`)
+	reCtxS0  = regexp.MustCompile(`^(?:context|ctx) (\w+),*\s*(\w*)\s*=\s*"+([^"]+)"+`)
+	reCtxS1  = regexp.MustCompile(`^(?:context|ctx) (\w+),*\s*(\w*)\s*=\s*'+([^']+)+'`)
 
 	// Regexp to parse counter instructions.
-	reCntr     = regexp.MustCompile(`(?:counter|cntr) (\w+)`)
-	reCntrInit = regexp.MustCompile(`(?:counter|cntr) (\w+)\s*=\s*(\d+)`)
-	reCntrOp0  = regexp.MustCompile(`(?:counter|cntr) (\w+)(\+\+|--)`)
-	reCntrOp1  = regexp.MustCompile(`(?:counter|cntr) (\w+)(\+\d+|-\d+)`)
+	reCntr     = regexp.MustCompile(`^(?:counter|cntr) (\w+)`)
+	reCntrInit = regexp.MustCompile(`^(?:counter|cntr) (\w+)\s*=\s*(\d+)`)
+	reCntrOp0  = regexp.MustCompile(`^(?:counter|cntr) (\w+)(\+\+|--)`)
+	reCntrOp1  = regexp.MustCompile(`^(?:counter|cntr) (\w+)(\+\d+|-\d+)`)
 
 	// Regexp to parse condition instruction.
-	reCond        = regexp.MustCompile(`if .*`)
+	reCond        = regexp.MustCompile(`^if .*`)
 	reCondExpr    = regexp.MustCompile(`if (.*)(==|!=|>=|<=|>|<)(.*)`)
 	reCondHelper  = regexp.MustCompile(`if ([^(]+)\(*([^)]*)\)`)
 	reCondComplex = regexp.MustCompile(`if .*&&|\|\||\(|\).*`)
-	reCondOK      = regexp.MustCompile(`if (\w+),*\s*(\w*)\s*:*=\s*([^(]+)\(*([^)]*)\)(.*)\s*;\s*([!\w]+)`)
-	reCondAsOK    = regexp.MustCompile(`if (\w+),*\s*(\w*)\s*:*=\s*([^(]+)\(*([^)]*)\) as (\w*)\s*;\s*([!\w]+)`)
-	reCondDotOK   = regexp.MustCompile(`if (\w+),*\s*(\w*)\s*:*=\s*([^(]+)\(*([^)]*)\)\.\((\w*)\)\s*;\s*([!\w]+)`)
+	reCondOK      = regexp.MustCompile(`^if (\w+),*\s*(\w*)\s*:*=\s*([^(]+)\(*([^)]*)\)(.*)\s*;\s*([!\w]+)`)
+	reCondAsOK    = regexp.MustCompile(`^if (\w+),*\s*(\w*)\s*:*=\s*([^(]+)\(*([^)]*)\) as (\w*)\s*;\s*([!\w]+)`)
+	reCondDotOK   = regexp.MustCompile(`^if (\w+),*\s*(\w*)\s*:*=\s*([^(]+)\(*([^)]*)\)\.\((\w*)\)\s*;\s*([!\w]+)`)
 	reCondExprOK  = regexp.MustCompile(`if .*;\s*([!:\w]+)(.*)(.*)`)
 
 	// Regexp to parse loop instruction.
-	reLoop      = regexp.MustCompile(`for .*`)
-	reLoopRange = regexp.MustCompile(`for ([^:]+)\s*:*=\s*range\s*([^\s]*)\s*(?:separator|sep)*\s*(.*)` + "")
-	reLoopCount = regexp.MustCompile(`for (\w*)\s*:*=\s*(\w+)\s*;\s*\w+\s*(<=|<|>=|>|!=)+\s*([^;]+)\s*;\s*\w*(--|\+\+)+\s*(?:separator|sep)*\s*(.*)`)
+	reLoop      = regexp.MustCompile(`^for .*`)
+	reLoopRange = regexp.MustCompile(`^for ([^:]+)\s*:*=\s*range\s*([^\s]*)\s*(?:separator|sep)*\s*(.*)` + "")
+	reLoopCount = regexp.MustCompile(`^for (\w*)\s*:*=\s*(\w+)\s*;\s*\w+\s*(<=|<|>=|>|!=)+\s*([^;]+)\s*;\s*\w*(--|\+\+)+\s*(?:separator|sep)*\s*(.*)`)
 	// Regexp to parse break/lazybreak instructions.
-	reLoopBrkN  = regexp.MustCompile(`break (\d+)`)
-	reLoopLBrkN = regexp.MustCompile(`lazybreak (\d+)`)
+	reLoopBrkN  = regexp.MustCompile(`^break (\d+)`)
+	reLoopLBrkN = regexp.MustCompile(`^lazybreak (\d+)`)
 	// Regexp to parse break-if/lazybreak-if instructions.
-	reLoopBrkIf   = regexp.MustCompile(`break (if .*)`)
-	reLoopBrkNIf  = regexp.MustCompile(`break (\d+) (if .*)`)
-	reLoopLBrkIf  = regexp.MustCompile(`lazybreak (if .*)`)
-	reLoopLBrkNIf = regexp.MustCompile(`lazybreak (\d+) (if .*)`)
+	reLoopBrkIf   = regexp.MustCompile(`^break (if .*)`)
+	reLoopBrkNIf  = regexp.MustCompile(`^break (\d+) (if .*)`)
+	reLoopLBrkIf  = regexp.MustCompile(`^lazybreak (if .*)`)
+	reLoopLBrkNIf = regexp.MustCompile(`^lazybreak (\d+) (if .*)`)
 	// Regexp to parse continue if-instructions.
-	reLoopContIf = regexp.MustCompile(`continue (if .*)`)
+	reLoopContIf = regexp.MustCompile(`^continue (if .*)`)
 
 	// Regexp to parse switch instruction.
 	reSwitch           = regexp.MustCompile(`^switch\s*(.*)`)
-	reSwitchCase       = regexp.MustCompile(`case ([^<=>!]+)([<=>!]{2})*(.*)`)
-	reSwitchCaseHelper = regexp.MustCompile(`case ([^(]+)\(*([^)]*)\)`)
+	reSwitchCase       = regexp.MustCompile(`^case ([^<=>!]+)([<=>!]{2})*(.*)`)
+	reSwitchCaseHelper = regexp.MustCompile(`^case ([^(]+)\(*([^)]*)\)`)
 
 	// Regexp to parse include instruction.
-	reInc = regexp.MustCompile(`(?:include|\.) (.*)`)
+	reInc = regexp.MustCompile(`^(?:include|\.) (.*)`)
 
 	crc64Tab = crc64.MakeTable(crc64.ISO)
 
